@@ -748,6 +748,95 @@ def r8(mods):
                       f"is_allowed(str(<url>.host), <headers>) (found {src(c)[:90]})")
     check(n == 3, "R6", "wiring/hooks-consult-the-traffic-filter", "-", f"each of the three hooks consults the traffic filter once ({n} calls)")
 
+    # the failure marker of the gateway is looked for in the RESPONSE's headers in every hook
+    nv = 0
+    for key in ("requests_hook", "aiohttp_hook", "tornado_hook"):
+        htree, hpath = mods[key]
+        for fn in ast.walk(htree):
+            if not isinstance(fn, (ast.FunctionDef, ast.AsyncFunctionDef)):
+                continue
+            assigned = {}
+            for st in ast.walk(fn):
+                if isinstance(st, ast.Assign) and len(st.targets) == 1 and isinstance(st.targets[0], ast.Name):
+                    assigned.setdefault(st.targets[0].id, []).append(st.value)
+                if isinstance(st, ast.AnnAssign) and isinstance(st.target, ast.Name) and st.value is not None:
+                    assigned.setdefault(st.target.id, []).append(st.value)
+            params = {a.arg for a in fn.args.args + fn.args.kwonlyargs}
+
+            def is_response(e, depth=0):
+                # <resp>.headers where <resp> is a local bound to the result of a call (the request just made)
+                if depth > 3:
+                    return False
+                if isinstance(e, ast.Name) and e.id in assigned and e.id not in params:
+                    return all(is_response(v, depth + 1) for v in assigned[e.id])
+                if isinstance(e, ast.Attribute) and e.attr == "headers" and isinstance(e.value, ast.Name):
+                    vals = assigned.get(e.value.id, [])
+                    return bool(vals) and e.value.id not in params and all(
+                        isinstance(v, (ast.Call, ast.Await)) for v in vals)
+                return False
+
+            for c in ast.walk(fn):
+                if isinstance(c, ast.Call) and isinstance(c.func, ast.Attribute) and c.func.attr == "validate_headers" and c.args:
+                    # only direct children of this function (nested defs are visited on their own)
+                    if enclosing_def(htree, c) is not fn:
+                        continue
+                    nv += 1
+                    check(is_response(c.args[0]), "R4", f"{key}/{fn.name}/validate_headers-reads-the-response", loc(hpath, c),
+                          f"validate_headers({src(c.args[0])}) is given the headers of the response object the call returned")
+    check(nv >= 3, "R4", "hooks/validate_headers-calls", "-", f"{nv} validate_headers calls inspected in the three hooks")
+    # the aiohttp hook counts every connection-level failure: the tuple handed to handle_on contains the
+    # base class of aiohttp's connection errors (ClientConnectorError, ServerDisconnectedError, ClientOSError derive from it)
+    atree, apath = mods["aiohttp_hook"]
+    found = None
+    for c in ast.walk(atree):
+        if isinstance(c, ast.Call) and isinstance(c.func, ast.Attribute) and c.func.attr == "handle_on" and c.args:
+            names = {src(e) for e in (c.args[0].elts if isinstance(c.args[0], (ast.Tuple, ast.List)) else [c.args[0]])}
+            found = (c, names)
+    if found is None:
+        undec("R2", "aiohttp/handle_on", rel(apath), "handle_on call not found")
+    else:
+        c, names = found
+        check(bool(names & {"ClientConnectionError", "ClientError", "aiohttp.ClientConnectionError", "aiohttp.ClientError"}), "R2",
+              "aiohttp/handle_on-covers-the-connection-error-base", loc(apath, c),
+              f"handle_on({sorted(names)}) includes ClientConnectionError (or ClientError): a dropped or reset gateway connection is counted and retried directly")
+    # values dropped from the allow list are collected per occurrence (list.remove removes one occurrence)
+    ttree2, tpath2 = mods["traffic_filter"]
+    cls2 = find_class(ttree2, "TrafficFilter")
+    va = find_func(cls2, "_validate_allow") if cls2 else None
+    if va is None:
+        undec("R6", "traffic_filter/_validate_allow", rel(tpath2), "function not found")
+    else:
+        bad = []
+        nrem = 0
+        for loop in ast.walk(va):
+            if isinstance(loop, ast.For) and any(isinstance(x, ast.Call) and isinstance(x.func, ast.Attribute) and x.func.attr == "remove" for x in ast.walk(loop)):
+                nrem += 1
+                it = loop.iter
+                vals = []
+                if isinstance(it, ast.Name):
+                    for st in ast.walk(va):
+                        if isinstance(st, ast.Assign) and any(isinstance(t, ast.Name) and t.id == it.id for t in st.targets):
+                            vals.append(st.value)
+                        if isinstance(st, ast.AnnAssign) and isinstance(st.target, ast.Name) and st.target.id == it.id and st.value is not None:
+                            vals.append(st.value)
+                else:
+                    vals = [it]
+                for v in vals:
+                    if isinstance(v, (ast.Set, ast.SetComp, ast.Dict, ast.DictComp)) or (isinstance(v, ast.Call) and src(v.func) in ("set", "frozenset", "dict.fromkeys")):
+                        bad.append(src(v)[:60])
+        check(nrem >= 1 and not bad, "R6", "traffic_filter/_validate_allow/removes-every-occurrence", loc(tpath2, va),
+              f"the unsupported values are walked as a list, one remove() per occurrence (set-like collections: {bad})")
+
+
+def enclosing_def(tree, node):
+    best = None
+    for fn in ast.walk(tree):
+        if isinstance(fn, (ast.FunctionDef, ast.AsyncFunctionDef)):
+            if fn.lineno <= node.lineno <= (fn.end_lineno or fn.lineno):
+                if best is None or fn.lineno >= best.lineno:
+                    best = fn
+    return best
+
 
 TABLE_FUNCS = [
     ("traffic_filter", "TrafficFilter", "is_allowed"),
